@@ -9,19 +9,25 @@
          obs_vm (vs_store vs) = obs_ref st /\ map class_vm ocs = map class_ref ros.
 
    What IS proved here, each stage under its own name:
-     C01_expr_pure              stage (a), on the fragment [tyof e = Some t] (Proofs/C01Expr.v)
-     C01_flags_coincide         the source-level core of stage (d): the VM's single matched
-                                flag and the reference's block-local flag run every block
-                                identically under the guard ok_block
-     C01_error_keeps_effects    the state returned with Err is the state reached by the
-                                completely executed instructions (VM) / statements (reference)
+     C01_expr_pure              stage (a), straight-line pure fragment (Proofs/C01Expr.v)
+     C01_expr_all               stages (b)+(c) for EVERY well-typed expression ([etype]): comparisons
+                                (typed and generic cmp), && || (forward jumps), =~ !~ / pattern match
+                                (capture state), metric reads (store relation [srel] with the VM's heap
+                                store), strtol, subst, and all of (a); step bound n <= |code|
+     C01_expr_logic             stage (b) by name;  C01_expr_effect  the expression part of stage (c)
+     C01_flags_coincide         source-level core of stage (d): single flag = block-local flag under ok_block
+     C01_stmt_skeleton          stage (d) at bytecode level for else-free blocks: conditionals, otherwise,
+                                sequencing, errors/stop — GIVEN the simulation of the block-free statements
+     C01_error_keeps_effects    the state returned with Err is the state reached by the executed prefix
      C01_otherwise_else_refuted the full statement is FALSE without the guard (witness of §6)
-     C01_compile_correct_partial  the conjunction
-   Missing construct classes (see notes/C01.md): comparisons and && || =~ !~ (jumps inside
-   expressions, stage (b)); metric reads and every statement against the VM's heap store
-   (stages (c), (d) at bytecode level); the composition over lines (e). *)
-From V Require Import Lang.RefSem Lang.Codegen Lang.Vm Lang.Observe
-  Proofs.C01Sim Proofs.C01Expr Proofs.C01Flags Proofs.C01Witness.
+     C01_compile_correct_partial  the conjunction of the closed general stages
+   NOT proved (see notes/C01.md): the block-free statements against the heap store (++ -- = += settime
+   strptime del del-after stop: the store lemmas for heap update / delete / expiry are missing, only
+   get_datum is done), conditionals WITH else at bytecode level, the initial-store relation and the
+   composition over lines (e); hence no in_fragment-guarded C01_compile_correct yet. *)
+From V Require Import Lang.RefSem Lang.Codegen Lang.Vm Lang.Observe Lang.Wt
+  Proofs.C01Sim Proofs.C01Expr Proofs.C01Flags Proofs.C01Witness
+  Proofs.C01Store Proofs.C01Gen Proofs.C01Cases Proofs.C01Stmt.
 Local Open Scope Z_scope.
 
 (* ---- stage (a) ---- *)
@@ -44,12 +50,95 @@ Theorem C01_expr_pure :
       end.
 Proof. intros. exact (sim_expr E decls file line o e t H pc stk mt ms tm rs vs H0 H1 H2). Qed.
 
+
+(* ---- stages (b) and (c), expressions: EVERY well-typed expression ---- *)
+(* comparisons (typed and generic cmp), && || with their forward jumps, =~ !~ and
+   pattern matches (capture state), metric reads (the VM's heap-and-pointer store
+   against the reference store, relation [srel]), strtol, subst (string and regexp),
+   and everything of stage (a).  [rel] relates reference state and VM registers/state:
+   captures ([mrel]), time register, stores ([srel]), strptime memo ([memo_ok]). *)
+Theorem C01_expr_all :
+  forall (E : env) (decls : list mdecl) (file line : bytes) (o : object),
+    o_metrics o = map mdesc_of decls ->
+    forall (e : expr) (t : ty), etype decls (o_strs o) (o_nre o) e = Some t ->
+    forall pc stk mt ms tm rs vs,
+      at_pc o pc (cexpr decls pc e) -> rel E decls rs ms tm vs ->
+      match RefSem.eval E decls file line e rs with
+      | ROk v rs' =>
+          vty v = t /\
+          exists stk' ms' vs' n,
+            (exists w, wrel e v w /\ stk' = w :: stk) /\
+            (n <= length (cexpr decls pc e))%nat /\
+            nsteps E o (mklogline file line) n (mkthread pc stk mt ms tm) vs =
+              Some (mkthread (pc + length (cexpr decls pc e)) stk' mt ms' tm, vs') /\
+            rel E decls rs' ms' tm vs' /\ ext (vs_store vs) (vs_store vs')
+      | RAbort (AErr _) rs' =>
+          exists n t1 e' vs',
+            (n < length (cexpr decls pc e))%nat /\
+            nsteps E o (mklogline file line) n (mkthread pc stk mt ms tm) vs = Some (t1, vs') /\
+            Vm.step E o (mklogline file line) t1 vs' = SEnd (Err e') vs' /\
+            srel decls (rs_store rs') (vs_store vs') /\ memo_ok E (vs_memo vs')
+      | RAbort AStop _ => False
+      end.
+Proof.
+  intros E decls file line o Hm e t Ht.
+  exact (proj1 (esim_all E decls file line o Hm) e t Ht).
+Qed.
+
+(* stage (b) by name: expressions with forward jumps and capture state *)
+Theorem C01_expr_logic :
+  forall (E : env) (decls : list mdecl) (file line : bytes) (o : object),
+    o_metrics o = map mdesc_of decls ->
+    forall e, (exists op t ty a b, e = ECmp op t ty a b) \/ (exists a b, e = EAnd a b) \/ (exists a b, e = EOr a b)
+              \/ (exists pid, e = EMatch pid) \/ (exists neg a pid, e = ESMatch neg a pid) ->
+    forall t, etype decls (o_strs o) (o_nre o) e = Some t -> esim E decls file line o e t.
+Proof. intros E decls file line o Hm e _ t Ht. exact (proj1 (esim_all E decls file line o Hm) e t Ht). Qed.
+
+(* stage (c), expression part: a metric read obtains (creating if absent) the datum
+   on both sides and the store relation is kept; index keys are evaluated left to right *)
+Theorem C01_expr_effect :
+  forall (E : env) (decls : list mdecl) (file line : bytes) (o : object),
+    o_metrics o = map mdesc_of decls ->
+    (forall m ks t, etype decls (o_strs o) (o_nre o) (EGet m ks) = Some t -> esim E decls file line o (EGet m ks) t) /\
+    (forall ks, keys_ok decls (o_strs o) (o_nre o) ks = true -> ksim E decls file line o ks) /\
+    (forall rst st m ks, srel decls rst st -> metric_ok decls m (length ks) = true ->
+       exists p st', get_datum o st (N.to_nat m) ks = Ok (p, st') /\
+         srel decls (snd (obtain decls m ks rst)) st' /\ ext st st' /\ points st' (N.to_nat m) ks p).
+Proof.
+  intros E decls file line o Hm. split; [|split].
+  - intros m ks t Ht. exact (proj1 (esim_all E decls file line o Hm) _ t Ht).
+  - exact (proj2 (esim_all E decls file line o Hm)).
+  - intros rst st m ks Hs Hk. destruct (get_datum_sim decls o Hm rst st m ks Hs Hk) as (p & st' & H1 & H2 & H3 & H4 & _).
+    exists p, st'. auto.
+Qed.
+
 (* ---- source-level core of stage (d) ---- *)
 Theorem C01_flags_coincide :
   forall (E : env) (decls : list mdecl) (file line : bytes) (b : block) (s : rstate),
     ok_block b false = true ->
     forget (gexec_block E decls file line b false s) = exec_block E decls file line b false s.
 Proof. exact flags_coincide. Qed.
+
+(* ---- stage (d) at bytecode level: the control-flow skeleton ---- *)
+(* Conditionals, `otherwise` and statement sequencing (with the Jnm / Setmatched /
+   Otherwise instructions and their forward jumps) are simulated by the VM with
+   respect to the single-flag interpreter [gexec_block] — equal to the reference's
+   block-local flag by C01_flags_coincide — for every else-free well-typed block,
+   GIVEN the simulation [ssim] of the block-free statements it contains.  An error
+   or `stop` inside ends the run with related stores ([run_post]). *)
+Theorem C01_stmt_skeleton :
+  forall (E : env) (decls : list mdecl) (file line : bytes) (o : object),
+    o_metrics o = map mdesc_of decls ->
+    (forall s, simple s = true -> wt_stmt decls (o_strs o) (o_nre o) s = true -> ssim E decls file line o s) ->
+    forall b, wt_block decls (o_strs o) (o_nre o) b = true -> noelse_block b = true ->
+      forall pc stk g ms tm rs vs,
+        at_pc o pc (cblock decls pc b) -> rel E decls rs ms tm vs ->
+        run_post E decls file line o (length (cblock decls pc b)) pc stk g ms tm vs
+                 (gexec_block E decls file line b g rs).
+Proof.
+  intros E decls file line o Hm Hs b Hw Hn.
+  exact (proj2 (skeleton E decls file line o Hm Hs) b Hw Hn).
+Qed.
 
 (* ---- errors keep the effects already made ---- *)
 Theorem C01_error_keeps_effects :
@@ -79,8 +168,12 @@ Qed.
 
 (* ---- what is claimed ---- *)
 
-Theorem C01_compile_correct_partial : C01_stage_a /\ C01_stage_d_source.
-Proof. split; [exact sim_expr | exact flags_coincide]. Qed.
+Theorem C01_compile_correct_partial :
+  C01_stage_a /\ C01_stage_d_source /\
+  (forall E decls file line o, o_metrics o = map mdesc_of decls ->
+     (forall e t, etype decls (o_strs o) (o_nre o) e = Some t -> esim E decls file line o e t) /\
+     (forall ks, keys_ok decls (o_strs o) (o_nre o) ks = true -> ksim E decls file line o ks)).
+Proof. split; [exact sim_expr | split; [exact flags_coincide | exact esim_all]]. Qed.
 
 (* ---- non-vacuity ---- *)
 Example C01_expr_pure_nonvacuous :
@@ -101,7 +194,11 @@ Example C01_flags_nonvacuous :
 Proof. split; reflexivity. Qed.
 
 Print Assumptions C01_expr_pure.
+Print Assumptions C01_expr_all.
+Print Assumptions C01_expr_logic.
+Print Assumptions C01_expr_effect.
 Print Assumptions C01_flags_coincide.
+Print Assumptions C01_stmt_skeleton.
 Print Assumptions C01_error_keeps_effects.
 Print Assumptions C01_otherwise_else_refuted.
 Print Assumptions C01_compile_correct_partial.
